@@ -3,6 +3,8 @@ import SqiProofs.QuatMat
 import SqiProofs.HnfUnique
 import SqiProofs.QuatLattice
 import SqiProofs.QuatContains
+import SqiProofs.QuatLatMul
+import SqiProofs.QuatIndex
 /- C14 — "Quaternion algebra and lattice arithmetic is exact and canonical".
    Property theorems about the hand model `SqiModel.Quat` (tie H: the model's executable definitions are run
    against the C functions of algebra.c / dim4.c / lattice.c on every check run by tools/props/c14.py).
@@ -115,6 +117,19 @@ theorem lattice_contains_exact (l : Lattice) (x : Elem) (hl : l.denom ≠ 0) (hx
 theorem lattice_equal_exact (l1 l2 : Lattice) (h1 : l1.denom ≠ 0) (h2 : l2.denom ≠ 0)
     (hn1 : IsHNF l1.basis) (hn2 : IsHNF l2.basis) : latEqual l1 l2 = true ↔ ratLat l1 = ratLat l2 :=
   latEqual_spec l1 l2 h1 h2 hn1 hn2
+
+/-- `quat_lattice_mul` returns the product lattice L₁·L₂ = ℤ-span{x·y} in the algebra (Mathlib's product of
+    ℤ-submodules of `H p`) -/
+theorem lattice_mul_exact (p : ℤ) (l1 l2 : Lattice) (h1 : l1.denom ≠ 0) (h2 : l2.denom ≠ 0) :
+    hLat p (latMul p l1 l2) = hLat p l1 * hLat p l2 ∧ (latMul p l1 l2).denom ≠ 0 := latMul_spec p l1 l2 h1 h2
+
+/-- `quat_lattice_index` is the covolume ratio (the index when sub ⊆ over), for triangular bases -/
+theorem lattice_index_exact (sub over : Lattice) (hs : sub.denom ≠ 0) (ho : over.denom ≠ 0)
+    (hts : ∀ r c, r < 4 → c < r → sub.basis.get r c = 0) (hto : ∀ r c, r < 4 → c < r → over.basis.get r c = 0)
+    (hdo : (toMatrix over.basis).det ≠ 0)
+    (hdvd : (sub.denom * sub.denom * (sub.denom * sub.denom) * (toMatrix over.basis).det) ∣
+            (over.denom * over.denom * (over.denom * over.denom) * (toMatrix sub.basis).det)) :
+    (latIndex sub over : ℚ) = covol sub / covol over := latIndex_spec sub over hs ho hts hto hdo hdvd
 
 /-! ## non-vacuity: the hypotheses are met by concrete non-trivial instances -/
 
